@@ -389,3 +389,83 @@ func zzH_C09_compact4() {
 		zz.Reach("compacted 2 rows")
 	}
 }
+
+// zzH_C09_step4x2 / step2x2: a CHUNK of two rows combined into an arbitrary valid
+// capacity-4 (capacity-2) table that is at its load threshold, the first row carrying a new
+// key: the table grows (and rehashes) after the first row while the second row
+// of the same chunk is still waiting in the scratch space. The invariant and
+// the abstract key->value map must come out right for both rows.
+func zzH_C09_step4x2() { zzStep2Harness(4, true) }
+
+// capacity 2 -> 4 (quick), with and without growth
+func zzH_C09_step2x2() { zzStep2Harness(2, false) }
+
+func zzStep2Harness(n int, forceGrowth bool) {
+	zzRegisterKey()
+	fn, _ := slicefunc.Of(zzAdd64)
+	c := makeCombiningFrame(zzCombTyp, fn, n, 2)
+	ks, vs := make([]zzKey, n+2), make([]int64, n+2)
+	for s := 0; s < n; s++ {
+		ks[s], vs[s] = zzKey(zz.AnyInt64("slotKey")), zz.AnyInt64("slotVal")
+		c.hits[s] = zz.AnyInt("hits")
+		zz.Assume(c.hits[s] < 1<<62)
+	}
+	c.data = frame.Slices(ks, vs)
+	c.scratch = c.data.Slice(n, n+2)
+	c.len = zz.AnyInt("len")
+	zz.Assume(zzTableInv(c, ks))
+	oldK, oldV := append([]zzKey(nil), ks[:n]...), append([]int64(nil), vs[:n]...)
+	oldOcc := make([]bool, n)
+	for s := 0; s < n; s++ {
+		oldOcc[s] = c.hits[s] != 0
+	}
+	oldLen := c.len
+	k1, v1 := zzKey(zz.AnyInt64("newKey")), zz.AnyInt64("newVal")
+	k2, v2 := zzKey(zz.AnyInt64("newKey")), zz.AnyInt64("newVal")
+	ks[n], vs[n], ks[n+1], vs[n+1] = k1, v1, k2, v2
+	present1, present2 := false, false
+	for s := 0; s < n; s++ {
+		present1 = zz.Or(present1, zz.And(oldOcc[s], oldK[s] == k1))
+		present2 = zz.Or(present2, zz.And(oldOcc[s], oldK[s] == k2))
+	}
+	if forceGrowth {
+		zz.Assume(zz.And(oldLen == c.threshold, zz.Not(present1)))
+	}
+	// expected value of key x after both rows
+	expect := func(x zzKey) int64 {
+		var sum int64
+		for s := 0; s < n; s++ {
+			sum += zz.IteInt64(zz.And(oldOcc[s], oldK[s] == x), oldV[s], 0)
+		}
+		sum += zz.IteInt64(k1 == x, v1, 0)
+		sum += zz.IteInt64(k2 == x, v2, 0)
+		return sum
+	}
+	c.combine(2)
+	nk := c.data.Interface(0).([]zzKey)
+	nv := c.data.Interface(1).([]int64)
+	if c.cap == n {
+		zz.Reach("no growth")
+	} else {
+		zz.Reach("grew in mid-chunk")
+	}
+	zz.Assert(zzTableInv(c, nk), "the representation invariant is preserved over a two-row chunk")
+	newKeys := zz.IteInt(present1, 0, 1) + zz.IteInt(zz.Or(present2, k2 == k1), 0, 1)
+	zz.Assert(c.len == oldLen+newKeys, "Len grows by the number of new distinct keys in the chunk")
+	for _, x := range []zzKey{k1, k2} {
+		cnt := 0
+		for s := 0; s < c.cap; s++ {
+			here := zz.And(c.hits[s] != 0, nk[s] == x)
+			cnt += zz.IteInt(here, 1, 0)
+			zz.Assert(zz.Implies(here, nv[s] == expect(x)), "a fed key holds the fold of its old value and the chunk's values")
+		}
+		zz.Assert(cnt == 1, "a fed key occupies exactly one slot")
+	}
+	for o := 0; o < n; o++ {
+		cnt := 0
+		for s := 0; s < c.cap; s++ {
+			cnt += zz.IteInt(zz.And(c.hits[s] != 0, zz.And(nk[s] == oldK[o], nv[s] == expect(oldK[o]))), 1, 0)
+		}
+		zz.Assert(zz.Implies(oldOcc[o], cnt == 1), "every old key is present once with its folded value")
+	}
+}
